@@ -379,6 +379,11 @@ def histories(tier, seed):
     # one long file (two-digit ed addresses): edits at lines 9-12 and at the top
     L = [LINESET(seed)[0].replace("\n", "%d\n" % i) for i in range(1, 13)]
     out.append([L, L[:8] + ["x\n"] + L[9:], L[:8] + ["x\n"] + L[9:11], ["y\n"] + L[:8] + ["x\n"] + L[9:11]])
+    # lines containing characters on which str.splitlines (but not a file's line iteration) would split
+    U = ["a\u2028b\n", "c\x0cd\n", "e\x85f\n", "g\x1ch\n", "z\n"]
+    out += [[U[:2] + [U[4]], U[:3] + [U[4]], U[:3] + ["y\n"]],
+            [[U[4]], [U[0], U[4]], [U[0], "y\n"], [U[0], U[3], "y\n"]],
+            [[U[1], U[4]], [U[1], U[2], U[4]], [U[1], U[2], "y\n", U[4]]]]
     core3 = l2[:3]
     out += [[a, b, c, e] for a in core3 for b in core3 for c in core3 for e in core3
             if a != b and b != c and c != e]
